@@ -11,7 +11,7 @@ a configured bound (all as REPAIRED by the `fix:` commits of this property unles
 | `ctrl` | `session.ClientRegistry.Register` (client_registry.go) | one critical section: at the cap evict the oldest, insert (`final = evict`) |
 | `tun`  | `session.TunnelRegistry.Register` (tunnel_registry.go) | one critical section: check, insert (`final = check`) |
 | `map`  | `mapping.BaseMappingHandler.acquireConnectionSlot` (client/mapping/base_utils.go) | `Load`, check, `CompareAndSwap(cur, cur+1)`, retry (`final = cas`); one step for an observer that cannot stop between `Load` and `CAS` (`final = check`) |
-| `code` | `conncode.Service.CreateConnectionCode` (+ `repos.ConnectionCodeRepository`) | `codeQuotaMu.Lock`; `GetList(index)` = n ids; n × `GetByID`; check; `GetByCode`, `Set`, `Set`; `AppendToList(index)`; unlock (`mutex`, `cnt n = n`, `mid = 3`, `final = plain`) |
+| `code` | `conncode.Service.CreateConnectionCode` (+ `repos.ConnectionCodeRepository`) | `codeQuotaMu.Lock`; `GetList(index)` = n ids; n × `GetByID`; check; `GetByCode`; `Set(by-code)` = the code exists (can be activated); `Set(by-id)`, `AppendToList(index)`; unlock (`mutex`, `cnt n = n`, `mid = 1`, `final = plain`, `post = 2`).  The occupancy is what counts OR can be activated |
 | `mapq` | `conncode.Service.ActivateConnectionCode` | `mappingQuotaMu.Lock`; `GetClientPortMappings` + count + check; `CreatePortMapping`; unlock |
 
 A request that finds the mutex held queues up (`PC.waiting`, one `blk` event per scheduled step while
@@ -42,6 +42,10 @@ structure Proto where
   zeroUnl : Bool      -- `limit > 0 &&` guard present: 0 means unlimited
   fused : Bool := false   -- `Lock()` is not a step of its own: the first step runs from the lock to the first gate
                           -- INSIDE the critical section (`ClientRegistry.Register` with a gated `Close()` of the victim)
+  scan : Bool := false    -- the count is a scan: `GetList(index)`, then one record read PER INDEX ENTRY, each counted
+                          -- only if the entry is (still) active at the moment it is read (revoked codes stay in the index)
+  post : Nat := 0         -- plain insert: storage operations that follow the insert INSIDE the critical section
+                          -- (`Create`: the code is usable from `Set(by-code)` on; `Set(by-id)`, `AppendToList` follow)
   sections : Nat := 1     -- fused evict protocol: 1 = check + evict + `Close()` + insert in ONE critical section;
                           -- 2 = check + evict, unlock, `Close()`, lock, insert without re-check
 
@@ -53,6 +57,10 @@ inductive Op where
   | acquire    -- one admission request
   | release    -- give back what this thread was admitted with last (close / delete), one step
   | other      -- an admission request of ANOTHER client: same protocol, same mutex, not counted here
+  | revoke (failAt : Option Nat)
+               -- give back through the service (`RevokeConnectionCode` of the own code), five storage calls, not under
+               -- the quota mutex: claim, read, `Set(by-code)` (unusable), `Set(by-id)` (no longer counted), release claim;
+               -- `failAt = some k`: the k-th call fails (storage fault)
 deriving DecidableEq, Repr
 
 inductive PC where
@@ -63,6 +71,9 @@ inductive PC where
   | passed (snap k : Nat)     -- check passed on `snap`, `k` more operations before the final step
   | noise (k : Nat)           -- request of another client past its check, `k` more operations
   | evicting (v : Nat)        -- inside the victim's `Close()`, about to insert
+  | scanning (rest : List Nat) (acc : Nat)
+                              -- index read; `rest` entries still to be read, `acc` active ones found so far
+  | revoking (k : Nat)        -- `RevokeConnectionCode`: about to issue its storage call number `k`
 deriving DecidableEq, Repr
 
 structure Thread where
@@ -87,6 +98,7 @@ structure Cfg where
   next : Nat              -- next fresh item
   locks : List Nat        -- instances whose mutex is held
   waitq : List Nat        -- threads blocked in `Lock()`, in arrival order
+  idx : List Nat          -- the client's index: every item ever admitted (and inactive entries), append order
   threads : Nat → Thread
   trace : List Ev
 
@@ -117,7 +129,7 @@ def refuseCfg (P : Proto) (c : Cfg) (tid : Nat) : Cfg := unlockCfg P (refuseCore
 
 /-- The request is admitted into `base` (the occupancy, possibly minus an evicted victim). -/
 def admitCore (c : Cfg) (tid : Nat) (base : List Nat) (victim : Option Nat) : Cfg :=
-  { c with occ := base ++ [c.next], next := c.next + 1,
+  { c with occ := base ++ [c.next], next := c.next + 1, idx := c.idx ++ [c.next],
            threads := upd c.threads tid { finishOp (c.threads tid) with own := some c.next },
            trace := c.trace ++ [.adm tid c.next victim (base.length + 1)] }
 
@@ -128,9 +140,16 @@ def admitCfg (P : Proto) (c : Cfg) (tid : Nat) (base : List Nat) (victim : Optio
 def doneCfg (P : Proto) (c : Cfg) (tid : Nat) : Cfg :=
   unlockCfg P (stpCfg c tid (finishOp (c.threads tid)) c.locks) (c.threads tid).inst
 
+/-- Plain insert followed by `post` further operations inside the critical section: the item is in,
+the request (and the mutex) is not finished yet. -/
+def admitHold (P : Proto) (c : Cfg) (tid : Nat) : Cfg :=
+  { c with occ := c.occ ++ [c.next], next := c.next + 1, idx := c.idx ++ [c.next],
+           threads := upd c.threads tid { c.threads tid with own := some c.next, pc := .noise (P.post - 1) },
+           trace := c.trace ++ [.adm tid c.next none (c.occ.length + 1)] }
+
 def finalStep (P : Proto) (limit : Nat) (c : Cfg) (tid snap : Nat) : Cfg :=
   match P.final with
-  | .plain => admitCfg P c tid c.occ none
+  | .plain => if P.post = 0 then admitCfg P c tid c.occ none else admitHold P c tid
   | .check => if full P limit c.occ.length then refuseCfg P c tid else admitCfg P c tid c.occ none
   | .evict =>
     if full P limit c.occ.length then
@@ -150,15 +169,29 @@ def checkStep (P : Proto) (limit : Nat) (c : Cfg) (tid snap : Nat) : Cfg :=
 /-- First effective step of an admission (after the mutex, if any, was taken). -/
 def readStep (P : Proto) (limit : Nat) (c : Cfg) (tid : Nat) : Cfg :=
   if P.early then
+    if P.scan then
+      -- GetList(index): the entries are read one by one afterwards
+      match c.idx with
+      | [] => checkStep P limit c tid 0
+      | _ :: _ => stpCfg c tid { c.threads tid with pc := .scanning c.idx 0 } c.locks
+    else
     if P.cnt c.occ.length = 0 then checkStep P limit c tid c.occ.length
     else stpCfg c tid { c.threads tid with pc := .counting c.occ.length (P.cnt c.occ.length) } c.locks
   else finalStep P limit c tid c.occ.length
+
+/-- One record read of the count: the entry counts iff it is active NOW. -/
+def scanStep (P : Proto) (limit : Nat) (c : Cfg) (tid : Nat) (rest : List Nat) (acc : Nat) : Cfg :=
+  match rest with
+  | [] => checkStep P limit c tid acc
+  | e :: r =>
+    if r = [] then checkStep P limit c tid (acc + (if e ∈ c.occ then 1 else 0))
+    else stpCfg c tid { c.threads tid with pc := .scanning r (acc + (if e ∈ c.occ then 1 else 0)) } c.locks
 
 /-- The same for a request of another client: that client has nothing yet (occupancy 0, no record reads). -/
 def noiseStep (P : Proto) (limit : Nat) (c : Cfg) (tid : Nat) : Cfg :=
   if P.early then
     if full P limit 0 then doneCfg P c tid
-    else stpCfg c tid { c.threads tid with pc := .noise P.mid } c.locks
+    else stpCfg c tid { c.threads tid with pc := .noise (P.mid + P.post) } c.locks
   else doneCfg P c tid
 
 def holdLock (locks : List Nat) (inst : Nat) : List Nat := if inst ∈ locks then locks else inst :: locks
@@ -204,6 +237,33 @@ def lockStep (c : Cfg) (tid : Nat) : Cfg :=
   if (c.threads tid).inst ∈ c.locks then waitCfg c tid
   else stpCfg c tid { c.threads tid with pc := .locked } ((c.threads tid).inst :: c.locks)
 
+/-- The request of the thread is over without the mutex being involved. -/
+def endCfg (c : Cfg) (tid : Nat) : Cfg :=
+  { c with threads := upd c.threads tid { finishOp (c.threads tid) with own := none },
+           trace := c.trace ++ [.stp tid c.occ.length] }
+
+/-- One storage call of `RevokeConnectionCode` (call number `k`; `fail` = this call fails). -/
+def revokeStep (c : Cfg) (tid k : Nat) (fail : Bool) : Cfg :=
+  match k with
+  | 0 => -- TryClaim (SetNX)
+    if fail then endCfg c tid else stpCfg c tid { c.threads tid with pc := .revoking 1 } c.locks
+  | 1 => -- GetByCode
+    stpCfg c tid { c.threads tid with pc := .revoking (if fail then 4 else 2) } c.locks
+  | 2 => -- Set(by-code): the code can no longer be activated; it is still counted
+    stpCfg c tid { c.threads tid with pc := .revoking (if fail then 4 else 3) } c.locks
+  | 3 => -- Set(by-id): the quota slot is free
+    if fail then stpCfg c tid { c.threads tid with pc := .revoking 4 } c.locks
+    else
+      match (c.threads tid).own with
+      | none => stpCfg c tid { c.threads tid with pc := .revoking 4 } c.locks
+      | some it =>
+        if it ∈ c.occ then
+          { c with occ := c.occ.erase it,
+                   threads := upd c.threads tid { c.threads tid with pc := .revoking 4 },
+                   trace := c.trace ++ [.rel tid it (c.occ.erase it).length] }
+        else stpCfg c tid { c.threads tid with pc := .revoking 4 } c.locks
+  | _ => endCfg c tid -- ReleaseClaim (a failure is only logged)
+
 /-- One atomic step of thread `tid`. -/
 def stepThread (P : Proto) (limit : Nat) (c : Cfg) (tid : Nat) : Cfg :=
   match (c.threads tid).ops with
@@ -234,8 +294,20 @@ def stepThread (P : Proto) (limit : Nat) (c : Cfg) (tid : Nat) : Cfg :=
       match k with
       | 0 => finalStep P limit c tid snap
       | k' + 1 => stpCfg c tid { c.threads tid with pc := .passed snap k' } c.locks
-    | .noise _ => c
+    | .noise k =>
+      match k with
+      | 0 => doneCfg P c tid
+      | k' + 1 => stpCfg c tid { c.threads tid with pc := .noise k' } c.locks
     | .evicting v => if P.fused then evictFinish P c tid v else c
+    | .scanning rest acc => scanStep P limit c tid rest acc
+    | .revoking _ => c
+  | .revoke failAt :: _ =>
+    match (c.threads tid).pc with
+    | .idle =>
+      -- the request arrives (nothing shared is touched before the first storage call)
+      if (c.threads tid).own.isSome then stpCfg c tid { c.threads tid with pc := .revoking 0 } c.locks else endCfg c tid
+    | .revoking k => revokeStep c tid k (failAt == some k)
+    | _ => c
   | .other :: _ =>
     match (c.threads tid).pc with
     | .idle => if P.mutex then lockStep c tid else noiseStep P limit c tid
@@ -248,6 +320,8 @@ def stepThread (P : Proto) (limit : Nat) (c : Cfg) (tid : Nat) : Cfg :=
     | .counting _ _ => c
     | .passed _ _ => c
     | .evicting _ => c
+    | .scanning _ _ => c
+    | .revoking _ => c
 
 def run (P : Proto) (limit : Nat) (c : Cfg) (σ : List Nat) : Cfg := σ.foldl (stepThread P limit) c
 
@@ -261,7 +335,11 @@ def mkThreads (progs : List (Nat × List Op)) : Nat → Thread :=
 
 /-- `pre` items `0..pre-1` are already admitted. -/
 def init (pre : Nat) (progs : List (Nat × List Op)) : Cfg :=
-  ⟨List.range pre, pre, [], [], mkThreads progs, []⟩
+  ⟨List.range pre, pre, [], [], List.range pre, mkThreads progs, []⟩
+
+/-- … and `dead` further entries `pre..pre+dead-1` sit in the index without being active. -/
+def initDead (dead pre : Nat) (progs : List (Nat × List Op)) : Cfg :=
+  ⟨List.range pre, pre + dead, [], [], List.range (pre + dead), mkThreads progs, []⟩
 
 /-! ## The instances -/
 
@@ -282,9 +360,10 @@ def protoMap : Proto := { mutex := false, early := false, cnt := fun _ => 0, mid
 def protoMapCas : Proto := { mutex := false, early := true, cnt := fun _ => 0, mid := 0, final := .cas, zeroUnl := true }
 /-- mapping handler as found (`Load`, check, separate `Add`). -/
 def protoMapAsFound : Proto := { mutex := false, early := true, cnt := fun _ => 0, mid := 0, final := .plain, zeroUnl := true }
-def protoCode : Proto := { mutex := true, early := true, cnt := fun n => n, mid := 3, final := .plain, zeroUnl := false }
+def protoCode : Proto := { mutex := true, early := true, cnt := fun _ => 0, mid := 1, final := .plain, zeroUnl := false, post := 2,
+                           scan := true }
 def protoMapq : Proto := { mutex := true, early := true, cnt := fun _ => 0, mid := 0, final := .plain, zeroUnl := false }
 /-- quotas as found: count-then-create without mutual exclusion. -/
-def protoCodeAsFound : Proto := { mutex := false, early := true, cnt := fun n => n, mid := 3, final := .plain, zeroUnl := false }
+def protoCodeAsFound : Proto := { protoCode with mutex := false }
 
 end Tunnox.C17
